@@ -128,6 +128,9 @@ def opt_corpus():
     a(P("magic_aggregate", E2 + V1 + ".decl p(x:number,y:number)\n.decl o(x:number,n:number)\n.output o\np(x,y) :- e(x,y).\np(x,z) :- p(x,y), e(y,z).\no(x,n) :- v(x), n = count : { p(x,_) }.\n", "magic"))
     a(P("magic_two_outputs", E2 + V1 + ".decl p(x:number,y:number)\n.decl o1(y:number)\n.decl o2(x:number)\n.output o1\n.output o2\np(x,y) :- e(x,y).\np(x,z) :- e(x,y), p(y,z).\no1(y) :- v(x), p(x,y).\no2(x) :- v(y), p(x,y).\n", "magic"))
     a(P("magic_eqrel", E2 + V1 + ".decl q(x:number,y:number) eqrel\n.decl o(y:number)\n.output o\nq(x,y) :- e(x,y).\no(y) :- v(x), q(x,y).\n", "magic"))
+    a(P("magic_fact_after_rules", ".decl b(x:number)\n.input b\n.decl c(x:number)\n.input c\n.decl d1(x:number)\n.input d1\n.decl d2(x:number)\n.input d2\n.decl s(x:number)\n.decl r(x:number)\n.decl t(x:number)\n.decl q(x:number)\n.decl rr(x:number)\n.output q\n.output rr\ns(x) :- d1(x), d2(x).\nr(x) :- c(x), s(x).\nr(0).\nt(x) :- b(x), !r(x).\nq(x) :- t(x), s(x).\nrr(x) :- r(x).\n", "magic", m=2))
+    a(P("magic_fact_after_rules_agg", E2 + V1 + ".decl s(x:number)\n.decl r(x:number)\n.decl o(x:number,n:number)\n.output o\ns(x) :- e(x,x).\nr(x) :- v(x), s(x).\nr(1).\no(x,n) :- v(x), s(x), n = count : { r(x) }.\n", "magic", m=2))
+    a(P("magic_float_zero_L", ".decl e(x:float,y:number)\n.input e\n.decl g(y:number)\n.input g\n.decl p(x:float,y:number)\n.decl r(y:number)\n.output r\np(x,y) :- e(x,y), g(y).\nr(y) :- p(x,y), x = -0.0.\n", "magic", mode="L", n=2))
     a(P("magic_both_bound", E2 + ".decl p(x:number,y:number)\n.decl o()\n.decl o2(x:number)\n.output o\n.output o2\np(x,y) :- e(x,y).\np(x,z) :- p(x,y), p(y,z).\no() :- p(1,2).\no2(x) :- p(x,x), !p(x,1).\n", "magic"))
     a(P("magic_neg_two_recursive", E2 + V1 + ".decl r(x:number,y:number)\n.decl s(x:number,y:number)\n.decl o(y:number)\n.output o\nr(x,y) :- e(x,y).\nr(x,z) :- r(x,y), e(y,z).\ns(x,y) :- v(x), v(y), !r(x,y).\ns(x,z) :- s(x,y), e(y,z), !r(z,x).\no(y) :- s(3,y).\n", "magic"))
     a(P("magic_record", E2 + ".type Pr = [a:number, b:number]\n.decl r(k:number,p:Pr)\n.decl o(x:number,y:number)\n.output o\nr(x,[x,y]) :- e(x,y).\no(x,y) :- r(4,[x,y]).\n", "magic"))
@@ -172,6 +175,9 @@ def contract_corpus():
     a(P("choice_recursive", E2 + V1 + ".decl c(x:number,y:number) choice-domain y\n.output c\nc(x,x) :- v(x).\nc(x,z) :- c(x,y), e(y,z).\n", "choice", judge="choice", orders=O3))
     a(P("choice_recursive_swap", E2 + ".decl c(x:number,y:number) choice-domain x\n.output c\nc(x,y) :- e(x,y).\nc(y,x) :- c(x,y), e(y,_).\n", "choice", judge="choice", orders=O3))
     a(P("choice_spanning_tree", E2 + V1 + ".decl st(x:number,y:number) choice-domain y\n.output st\nst(x,x) :- v(x), x = 1.\nst(x,y) :- st(_,x), e(x,y).\n", "choice", judge="choice", orders=O3))
+    a(P("choice_subset_keys", ".decl e3(x:number,y:number,z:number)\n.input e3\n.decl c(x:number,y:number,z:number) choice-domain (x,y), x\n.output c\nc(x,y,z) :- e3(x,y,z).\n", "choice", judge="choice", orders=O3, m=2))
+    a(P("choice_superset_keys", ".decl e3(x:number,y:number,z:number)\n.input e3\n.decl c(x:number,y:number,z:number) choice-domain z, (z,y), (y,x)\n.output c\nc(x,y,z) :- e3(x,y,z).\n", "choice", judge="choice", orders=O3, m=2))
+    a(P("choice_subset_keys_rec", E2 + V1 + ".decl w(a:number,b:number) choice-domain (a,b), a\n.output w\nw(x,y) :- v(x), e(x,y).\nw(b,c) :- w(_,b), e(b,c).\n", "choice", judge="choice", orders=O3, m=2))
     a(P("choice_mutual_indirect", ".decl seed(k:number,v:number)\n.input seed\n.decl step(u:number,v:number)\n.input step\n.decl ca(k:number,v:number) choice-domain k\n.decl cb(k:number,v:number)\n.output ca\n.output cb\nca(k,v) :- seed(k,v).\ncb(k,v) :- ca(k,u), step(u,v).\nca(k,v) :- cb(k,v).\n", "choice", judge="choice", orders=O3, m=2))
     a(P("choice_mutual_three", E2 + V1 + ".decl ca(k:number,v:number) choice-domain k\n.decl cb(k:number,v:number)\n.decl cc(k:number,v:number) choice-domain v\n.output ca\n.output cb\n.output cc\nca(x,x) :- v(x).\ncb(k,w) :- ca(k,u), e(u,w).\ncc(k,w) :- cb(k,w).\nca(k,w) :- cc(k,w).\n", "choice", judge="choice", orders=O3, m=2))
     # subsumption (min-cost shapes): judge_arg = monotone-cost program
@@ -274,6 +280,8 @@ def component_corpus():
        E2 + flat_pair("o.q.", 2, 1) + OUT + "o1(x) :- o.q.fst(x).\no2(x) :- o.q.snd(x).\n")
     PC("comp_param_same_order", E2 + SRC + PAIR + ".comp Keep<A, B> : Pair<A, B> { }\n.init k = Keep<S1, S2>\n" + OUT + "o1(x) :- k.fst(x).\no2(x) :- k.snd(x).\n",
        E2 + flat_pair("k.", 1, 2) + OUT + "o1(x) :- k.fst(x).\no2(x) :- k.snd(x).\n")
+    PC("comp_override_qualified_head", E2 + ".comp Clo {\n.decl path(a:number,b:number)\npath(a,c) :- path(a,b), path(b,c).\n}\n.comp Base {\n.init sub = Clo\nsub.path(a,b) :- e(a,b).\n.decl path(a:number,b:number) overridable\npath(a,b) :- sub.path(a,b).\n}\n.comp Derived : Base {\n.override path\npath(b,a) :- sub.path(a,b), a != b.\n}\n.init d = Derived\n.decl o1(a:number,b:number)\n.decl o2(a:number,b:number)\n.output o1\n.output o2\no1(a,b) :- d.path(a,b).\no2(a,b) :- d.sub.path(a,b).\n",
+       E2 + ".decl d.sub.path(a:number,b:number)\nd.sub.path(a,c) :- d.sub.path(a,b), d.sub.path(b,c).\nd.sub.path(a,b) :- e(a,b).\n.decl d.path(a:number,b:number)\nd.path(b,a) :- d.sub.path(a,b), a != b.\n.decl o1(a:number,b:number)\n.decl o2(a:number,b:number)\n.output o1\n.output o2\no1(a,b) :- d.path(a,b).\no2(a,b) :- d.sub.path(a,b).\n")
     PC("comp_output_inside", E2 + ".comp C {\n.decl p(x:number,y:number)\n.output p\np(x,y) :- e(x,y), x < y.\n}\n.init c1 = C\n",
        E2 + ".decl c1.p(x:number,y:number)\n.output c1.p\nc1.p(x,y) :- e(x,y), x < y.\n")
     PC("comp_inherit_param_chain", E2 + ".comp Base<T> {\n.decl b(x:T)\n.decl d(x:T)\nd(x) :- b(x).\n}\n.comp Mid<T> : Base<T> {\n.decl m(x:T,y:T)\nm(x,y) :- d(x), d(y), x < y.\n}\n.comp Top : Mid<number> {\nb(x) :- e(x,_).\n}\n.init t = Top\n.decl o(x:number,y:number)\n.output o\no(x,y) :- t.m(x,y).\n",
